@@ -206,7 +206,7 @@ def hex_grid_rules(chk, repo, clause):
 def sampling_rules(chk, repo, clause):
     f, paths, _ = analyse(repo, 'radiometry._intersect')
     sub, sup = S('subset'), S('superset')
-    want = nf.app('where', nf.app('bitand', nf.app('le', nf.app('amin', sub), sup), nf.app('le', sup, nf.app('amax', sub))))
+    want = nf.app('nonzero', nf.app('bitand', nf.app('le', nf.app('amin', sub), sup), nf.app('le', sup, nf.app('amax', sub))))
     rets = returns(paths)
     chk.ob(clause, 'T-comparison', f.key, 'samples of the common grid inside the closed range of the operand',
            len(rets) == 1 and rets[0].ret == want, fmt(rets[0].ret)[:200] if rets else '', f.loc())
